@@ -3,8 +3,11 @@ package c10
 import (
 	"errors"
 	"fmt"
+	"github.com/scrapli/scrapligo/driver/options"
+	"github.com/scrapli/scrapligo/logging"
 	"math/rand"
 	"strings"
+	"sync"
 	"time"
 
 	"github.com/scrapli/scrapligo/driver/opoptions"
@@ -18,6 +21,8 @@ import (
 // Hooks lets another property (C11) reuse the runner.
 type Hooks struct {
 	ExtraOpts []util.Option
+	// AfterOpen, if set, is called right after Open returned (before anything is judged or used).
+	AfterOpen func()
 	// Drain: before reporting a violation let the session read everything the device has generated
 	// (C11 wants the logs of a misbehaving session to be complete).
 	Drain bool
@@ -114,8 +119,16 @@ func RunDialogue(d Dialogue, h *Hooks) (mon.Result, *Info) {
 		ac = &closeErrConn{AuthConn: &devsim.AuthConn{Conn: conn, SSH: d.SSHArgs()}}
 	}
 	var extra []util.Option
+	if d.LogLevel != "" {
+		var sink sync.Mutex
+		n := 0
+		li, lerr := logging.NewInstance(logging.WithLevel(d.LogLevel), logging.WithLogger(func(a ...interface{}) { sink.Lock(); n += len(a); sink.Unlock() }))
+		if lerr == nil {
+			extra = append(extra, options.WithLogger(li))
+		}
+	}
 	if h != nil {
-		extra = h.ExtraOpts
+		extra = append(extra, h.ExtraOpts...)
 	}
 	s, err := NewSession(&d, ac, extra)
 	if err != nil {
@@ -140,6 +153,9 @@ func RunDialogue(d Dialogue, h *Hooks) (mon.Result, *Info) {
 	closedAtReturn := conn.CloseCalls()
 	if err == nil {
 		defer s.Close()
+	}
+	if h != nil && h.AfterOpen != nil {
+		h.AfterOpen()
 	}
 	got := classOf(err)
 	info.Class, info.Err = got, err
@@ -248,7 +264,10 @@ func RunDialogue(d Dialogue, h *Hooks) (mon.Result, *Info) {
 		tags = append(tags, fmt.Sprintf("family=custom-patterns(user=%v,password=%v,passphrase=%v)", d.UserPat != "", d.PassPat != "", d.PhrasePat != ""))
 		obs["custom_pattern_dialogues"] = 1
 	}
-	tags = append(tags, "credentials="+d.CredConfig())
+	tags = append(tags, "credentials="+d.CredConfig(), "logger="+d.LogLevel)
+	if d.LogLevel != "" {
+		obs["dialogues_with_real_logger"] = 1
+	}
 	if d.CloseErr {
 		obs["close_returns_error_dialogues"] = 1
 		tags = append(tags, "close-error:outcome="+got)
@@ -521,14 +540,23 @@ func firstOps(d *Dialogue, s *Session, conn *devsim.Conn, dev *Dev, a *Analysis,
 func RunPair(d Dialogue) mon.Result {
 	second := *d.Then
 	d.Then = nil
-	r1, _ := RunDialogue(d, nil)
+	var r2 mon.Result
+	var r1 mon.Result
+	if d.Interleave {
+		// open A, open and use B, then use A
+		r1, _ = RunDialogue(d, &Hooks{AfterOpen: func() { r2, _ = RunDialogue(second, nil) }})
+	} else {
+		r1, _ = RunDialogue(d, nil)
+	}
 	if r1.Verdict != mon.Held {
 		if r1.Verdict == mon.Violated {
 			r1.Key += ":first-of-pair"
 		}
 		return r1
 	}
-	r2, _ := RunDialogue(second, nil)
+	if !d.Interleave {
+		r2, _ = RunDialogue(second, nil)
+	}
 	if r2.Verdict != mon.Held {
 		if r2.Verdict == mon.Violated {
 			r2.Key += ":second-of-pair"
@@ -537,6 +565,9 @@ func RunPair(d Dialogue) mon.Result {
 		return r2
 	}
 	obs := map[string]int64{"pairs_same_prompt_pattern": 1}
+	if d.Interleave {
+		obs["pairs_second_login_before_first_operation"] = 1
+	}
 	for k, v := range r1.Obs {
 		obs[k] += v
 	}
@@ -585,6 +616,18 @@ func GenPair(r *rand.Rand, idx int, seed int64) Dialogue {
 		a, b = draw(2), draw(1)
 	default:
 		a, b = draw(2), draw(2)
+	}
+	if idx%2 == 1 && drv != "netconf" {
+		// the second login happens between the first one's Open and its first operation; the first
+		// must log in and its first operation must look at what the login left behind
+		for try := 0; try < 40; try++ {
+			if an := Analyse(&a); an.PlanClass == OutOK && len(an.Log) > 0 {
+				break
+			}
+			a = draw(map[int]int{0: 1, 1: 2, 2: 2}[order])
+		}
+		a.Interleave = true
+		a.FirstOp = "readall"
 	}
 	a.Then = &b
 	return a
